@@ -641,7 +641,6 @@ func (r *cancelRun) serve(ctx context.Context, ss grpc.ServerStream) error {
 type cancelEnv struct {
 	cur    *cancelRun
 	byID   sync.Map
-	inner  grpc.ClientConnInterface
 	outerF func(ctx context.Context) // body of the outer handler (nested bases)
 }
 
